@@ -338,3 +338,44 @@ def tbl19_connectives_and_null(ctx):
                                           'marks the result NULL wherever one operand is NULL (combine_nulls): '
                                           'NULL OR TRUE must be TRUE - `a IS NULL OR a > 3` loses every row where a is NULL'),
                       'src/engine/planning/planner.rs:%s' % seen[conn]['pat'].get('l'))
+
+
+# ------------------------------------------------------------------------------------ TBL-20
+def tbl20_registry_forwards_null(ctx):
+    """A column that a partition does not contain (or that is NULL in all of its rows) is planned with
+    type Null.  Every binary operator of the registry must accept Null on either side for every
+    operand type it otherwise accepts and yield NULL - otherwise `a + b`, `a < b`, `s = 'x'` are a
+    TypeError for the whole query as soon as *one* partition lacks the column, while the sibling
+    operators (`*`, `/`, `<=`, `>`) answer NULL."""
+    from mirlib.astlib import last_seg
+    from .chk import registry_entries, _signatures
+    ctx.rule('TBL-20', 'every operator of the function registry has NULL-forwarding rows (Null, T) and (T, Null) '
+                       'for each operand type T it accepts, and (Null, Null): the sibling operators agree on what '
+                       'a missing / all-NULL column means', floor=11)
+    reg = registry_entries(ctx)
+    ctx.require(len(reg) >= 11, 'TBL-20: fewer than 11 operators in the registry (%s)' % sorted(reg))
+    for op in sorted(reg):
+        entries, node = reg[op]
+        accepted = set()
+        fwd = set()
+        for e in entries:
+            sigs, kind = _signatures(e)
+            if kind in ('forward_left_null', 'forward_right_null'):
+                t = last_seg(e['args'][0].get('path', '')) if e.get('args') else '?'
+                fwd.add(('Null', t) if kind == 'forward_left_null' else (t, 'Null'))
+                continue
+            for (l, r) in (sigs or []):
+                if l == 'Null' or r == 'Null':
+                    fwd.add((l, r))
+                accepted |= {l, r}
+        accepted.discard('Null')
+        need = set()
+        for t in sorted(accepted) + ['Null']:
+            need |= {('Null', t), (t, 'Null')}
+        missing = sorted(need - fwd)
+        ctx.check('TBL-20', '%s|null-forwarding-rows' % op, not missing,
+                  '%s accepts %s; %s' % (op, sorted(accepted),
+                                        'Null is forwarded on either side for each of them' if not missing else
+                                        'no row for %s: the expression is a TypeError for the whole query when one '
+                                        'partition lacks the column' % ', '.join('(%s, %s)' % m for m in missing)),
+                  'src/engine/planning/query_plan.rs:%s' % (node.get('l') if isinstance(node, dict) else '?'))
